@@ -117,11 +117,15 @@ type env struct {
 	// (`rr[k].M()` is dynamic dispatch on the interface Region): the method, the Lean element
 	// type and the value read outside the list (a Go panic)
 	viewM, viewT, viewD string
+	// extension used by locless.go / lockind.go only (nil elsewhere): calls beyond the integer subset
+	// (a call of the function being translated on Location values, methods of interface values)
+	callExt func(e *env, n *ast.CallExpr) (val, bool)
 }
 
 func (e *env) clone() *env {
 	n := &env{vars: map[string]val{}, results: e.results, fns: e.fns, self: e.self, recvVar: e.recvVar,
 		ext: e.ext, bitops: e.bitops, viewM: e.viewM, viewT: e.viewT, viewD: e.viewD}
+	n.callExt = e.callExt
 	for k, v := range e.vars {
 		n.vars[k] = v
 	}
@@ -342,6 +346,11 @@ func (e *env) expr(x ast.Expr) val {
 }
 
 func (e *env) call(n *ast.CallExpr) val {
+	if e.callExt != nil {
+		if v, ok := e.callExt(e, n); ok {
+			return v
+		}
+	}
 	if identName(n.Fun) == "make" && e.ext != nil && len(n.Args) == 2 && identName(n.Args[0]) == "Regions" {
 		// `make(Regions, n)`: n nil elements, seen through the view (filled by index below)
 		c := e.expr(n.Args[1])
